@@ -314,7 +314,7 @@ func TestC04(t *testing.T) {
 		Level: "exploration",
 		Rule: "rapid draws histories (1-20 transactions of 1-3 create / update / patch / delete operations) over a target store and six referrer stores, one per wiring (nullable fk index, non-null fk index, fk constraint + cascade none, fk constraint + cascade delete, cascade-delete fk index, self-referencing nullable fk index), with 2-4 ids per history drawn from a universe mixing plain ids with ids containing quotes, backslashes, filter keywords, blanks, brackets, newlines, tabs and a control byte. " +
 			"A model of references predicts every outcome (missing target, null in non-nullable, reference-exists on restrict, exact survivor set on cascade); after every transaction the entities of all stores, the back-reference sets and the full dump (on failure) are compared. " +
-			"Also generated: three referrer stores whose target is a child store, a child store over the non-null referrer store, histories concentrated on 2-4 referrer stores, explicit re-parenting, stale-target, swap-referrer and cascade-burst transactions, system contexts. " +
+			"Also generated: three referrer stores whose target is a child store, a child store over the non-null referrer store, histories concentrated on 2-4 referrer stores, explicit re-parenting, stale-target, swap-referrer and cascade-burst transactions, system contexts. Also: a self-referencing cascade store with three-level hierarchies whose root or inner node is deleted, an extended variant of the child-store target. " +
 			"Non-trivial history: a delete of a referenced target (either outcome), a re-parenting update, or a delete involving a hostile id. Distinct by hash of the history JSON.",
 		Assumptions: []string{"expected error classes are checked only through the exported Is* helpers; error texts are never compared",
 			"an entity referencing itself through a cascade wiring and cascade cycles are skipped as unspecified"},
